@@ -249,6 +249,19 @@ Definition render (s : obs_state) (ft : ftoks) : option chars :=
   | None => None
   end.
 
+(** exporter.rs: ERROR_REPONSE, written when [handler] fails *)
+Definition error_response : chars :=
+  s2c "HTTP/1.1 500 Internal Server Error" ++ crlf ++ s2c "content-type: text/plain" ++ crlf ++
+  s2c "content-length: 0" ++ crlf ++ crlf.
+
+(** exporter.rs: [read_json] does ONE [read_buf] into a Vec of capacity 16 KiB:
+    a longer message is cut, serde_json fails, the client gets the 500. *)
+Definition OBS_READ_CAP : nat := Z.to_nat 16384.
+
+Definition respond (s : obs_state) (ft : ftoks) : option chars :=
+  if (OBS_READ_CAP <? length (print (to_json s)))%nat then Some error_response
+  else render s ft.
+
 (** * Parsing an HTTP response and the exposition format (oracle side) *)
 
 Fixpoint split_at_crlf2 (s : chars) : option (chars * chars) :=
